@@ -180,9 +180,9 @@ def step (toks : List String) : String :=
     | some co, some ke, some cr, some ops =>
       runGroups whMachine (⟨co, ke, cr, b01 c2, b01 sa, b01 kp, b01 fx, false, b01 pf⟩, ⟨b01 isy, b01 rc, b01 al⟩) ops []
     | _, _, _, _ => "bad-op"
-  | "S" :: ty :: sa :: kp :: ci :: pf :: isy :: rc :: al :: ops =>
+  | "S" :: ty :: sa :: kp :: ci :: pf :: ps :: isy :: rc :: al :: ops =>
     match ty.toNat?, ops.mapM groupOf with
-    | some ty, some ops => runGroups sabaMachine (⟨ty, b01 sa, b01 kp, b01 ci, b01 pf⟩, ⟨b01 isy, b01 rc, b01 al⟩) ops []
+    | some ty, some ops => runGroups sabaMachine (⟨ty, b01 sa, b01 kp, b01 ci, b01 pf, b01 ps⟩, ⟨b01 isy, b01 rc, b01 al⟩) ops []
     | _, _ => "bad-op"
   | ["FOOT"] => footStr
   | "E" :: p0 :: p1 :: n :: sa :: isy :: dt :: ops =>
